@@ -160,6 +160,9 @@ fn pan<T>(r: Result<T, String>) -> Res<T> {
     r.map_err(Fail::Panic)
 }
 
+include!("be_c07.rs");
+include!("be_c06.rs");
+
 pub struct B;
 
 impl crate::ops::StrictOps for B {
